@@ -1610,3 +1610,39 @@ def bool_outcome_edges(body, call_blocks):
         tr, fa = (bi, other[0]), (bi, zero[0])
         res.append((bi, fa, tr) if neg else (bi, tr, fa))
     return res
+
+
+def result_err_targets(body, call_block):
+    """blocks entered when the Result returned by the call in `call_block` is Err: the Break arm of `?` (Try::branch) or the
+    variant-1 arm of a `match` on the result."""
+    t = body.term(call_block)
+    if t['k'] != 'call' or len(t['d']) != 1:
+        return []
+    want = {t['d'][0]}
+    res = []
+    # follow plain moves and Try::branch
+    for _ in range(4):
+        grew = False
+        for bi in body.normal_blocks():
+            tt = body.term(bi)
+            if tt['k'] == 'call' and call_matches(tt, ['std::ops::Try::branch', 're:Result::<T, E>::(map_err|map|inspect_err|inspect)$']) and tt['a'] and op_local(tt['a'][0]) in want and len(tt['d']) == 1 and tt['d'][0] not in want:
+                want.add(tt['d'][0]); grew = True
+            for s in body.blocks[bi]['s']:
+                if s['k'] == 'assign' and len(s['p']) == 1 and s['r']['k'] == 'use' and op_place(s['r']['a'][0]) is not None and len(op_place(s['r']['a'][0])) == 1 \
+                   and op_place(s['r']['a'][0])[0] in want and s['p'][0] not in want and s['p'][0] != 0:
+                    want.add(s['p'][0]); grew = True
+        if not grew:
+            break
+    for bi in body.normal_blocks():
+        tt = body.term(bi)
+        if tt['k'] != 'switch':
+            continue
+        d = switch_def(body, bi)
+        if not d or d[2] != 'assign' or d[3]['r']['k'] != 'discr':
+            continue
+        pl = d[3]['r']['p']
+        if len(pl) == 1 and pl[0] in want:
+            for v, tg in zip(tt['vals'], tt['ts']):
+                if v == 1:
+                    res.append(tg)
+    return res
